@@ -180,11 +180,12 @@ pub fn c05(cx: &mut Ctx) {
     for (k, looks) in [1usize, 3, 5, 6].iter().enumerate() {
         for reqv in ["HTTP/1.1", "HTTP/1.0"] {
             for creq in [false, true] {
+              // what the refusal says about the connection: close / keep-alive / two fields / nothing
+              for conn in 0..4usize {
                 let mut r = cx.case("polled");
                 let mk = |n: &str, v: &str| Field { name: n.as_bytes().to_vec(), pre: b" ".to_vec(), value: v.as_bytes().to_vec(), post: vec![] };
                 let mut fields = vec![mk("Content-Length", "0"), mk("X-K", &k.to_string())];
-                // what the refusal says about the connection: close / keep-alive / two fields / nothing
-                match (k + if creq { 1 } else { 0 } + if reqv == "HTTP/1.0" { 2 } else { 0 }) % 4 {
+                match conn {
                     0 => fields.insert(0, mk("Connection", "close")),
                     1 => fields.insert(1, mk("Connection", "keep-alive")),
                     2 => { fields.insert(0, mk("Connection", "keep-alive")); fields.push(mk("connection", "upgrade")); }
@@ -209,6 +210,7 @@ pub fn c05(cx: &mut Ctx) {
                 for p in [0usize, 5, first_line, enc.len() - 2, enc.len() - 1] { cx.op(&format!("resp {}", hx(&enc[..p]))); }
                 cx.op(&format!("resp {}", hx(&enc)));
                 cx.op("canproceed");
+              }
             }
         }
     }
